@@ -203,6 +203,7 @@ class AFMReader(TextToModel):
             "OR": ASTOperation.OR,
             "AND": ASTOperation.AND,
             "IFF": ASTOperation.EQUIVALENCE,
+            "IMPLIES": ASTOperation.IMPLIES,
         }
 
         if expression.__class__ in binary_operation_types:
